@@ -76,6 +76,8 @@ def main():
         for r in ex.map(lambda d: one(d, demo, checks), dirs):
             allres.append(r)
             tag = "CAUGHT" if r.get("fired") else ("NOAPPLY" if not r.get("applies") else "missed")
+            if any(f["exit"] != 1 for f in (r.get("fired") or {}).values()):
+                tag = "ERROR "   # a check stopped with an analysis error (exit 2): neither a verdict nor silence
             dm = ""
             if "demo_pristine" in r:
                 dm = " demo(pristine=%s patched=%s)" % (r["demo_pristine"], r["demo_patched"])
